@@ -290,7 +290,9 @@ func (l *leader) step(op int) bool {
 	case opPutA:
 		return plain(&proto.WriteRequest{Puts: []*proto.PutRequest{{Key: "a", Value: val("a")}}})
 	case opPutBIdx:
-		return plain(&proto.WriteRequest{Puts: []*proto.PutRequest{{Key: "b", Value: val("b"), SecondaryIndexes: idx("i1", fmt.Sprintf("s%d", off%2))}}})
+		// the same index entry is declared twice (clients do that; the second is a no-op for the state)
+		k := fmt.Sprintf("s%d", off%2)
+		return plain(&proto.WriteRequest{Puts: []*proto.PutRequest{{Key: "b", Value: val("b"), SecondaryIndexes: append(idx("i1", k), idx("i1", k)...)}}})
 	case opPutAIfAbsent:
 		return plain(&proto.WriteRequest{Puts: []*proto.PutRequest{{Key: "a", Value: val("a"), ExpectedVersionId: oxh.I64(-1)}}})
 	case opCasB:
